@@ -39,6 +39,8 @@ def collect(ctx):
             d["sep"].append(r[2:])
         elif k == "IFACE":
             d["iface"].append(r[2:])
+        elif k == "GENV":
+            d.setdefault("genv", []).append(r[2:])
         elif k == "RT":
             d.setdefault("rt", []).append(r[2:])
     return progs
@@ -212,6 +214,47 @@ def run(ctx):
                            f"the exports of package {row[1]} (order #{row[0]}) are not what an importer reads back from the .interface JSON: {row[2]}",
                            {"id": pid, "src": d.get("src", "")[:6000], "package": row[1], "verdict": row[2]})
 
+    # ---- tie (link environment): the genv of both ways is Exports.applyAll of the packages' exports, lookup for lookup;
+    #      the hypotheses of link_env_order_irrelevant (distinct keys per export map, no key exported twice differently) hold
+    g0 = next((row[1] for row in progs.get("genv0", {}).get("genv", []) if row[0] == "0"), None)
+    env_lines, n_env = [], 0
+    if g0 is None and any("genv" in d for pid, d in progs.items() if pid != "genv0"):
+        ctx.broken_ties.append(("harness", "no GENV 0 row (GlobalTypeEnv::new())"))
+    for pid, d in progs.items():
+        if pid == "genv0" or g0 is None:
+            continue
+        wrow = next((row[1] for row in d.get("genv", []) if row[0] == "w"), None)
+        for row in d.get("genv", []):
+            if row[0] == "s" and wrow is not None:
+                # row[2] = ((pkg env)…) sep-genv
+                inner = row[2][1:-1]
+                depth, cut = 0, None
+                for i, ch in enumerate(inner):
+                    depth += ch == "("
+                    depth -= ch == ")"
+                    if depth == 0 and ch == ")":
+                        cut = i + 1
+                        break
+                pkgs, sep = inner[:cut], inner[cut:].strip()
+                env_lines.append(f"{pid}|env{row[1]}\t(linkenv {g0} {pkgs} {sep} {wrow})")
+    env_res = run_model(ctx, env_lines) if env_lines else {}
+    n_env_ok = n_env_same_order = 0
+    env_keys = collections.Counter()
+    for l in env_lines:
+        key = l.split("\t", 1)[0]
+        r = env_res.get(key)
+        n_env += 1
+        if not r or r[0] != "linkenv":
+            ctx.broken_ties.append(("model driver c14 (linkenv)", f"{key}: {r}"))
+        elif r[1] == "ok":
+            n_env_ok += 1
+            n_env_same_order += "same-iteration-order-as-separate=true" in r
+            pk = next((int(f.split("=")[1]) for f in r if f.startswith("pkgkeys=")), 0)
+            env_keys["0" if pk == 0 else "1-5" if pk <= 5 else "6-20" if pk <= 20 else ">20"] += 1
+        else:
+            ctx.broken_ties.append(("link environment ≠ Exports.applyAll of the packages' exports (or a hypothesis of link_env_order_irrelevant fails)",
+                                    f"{key}: {r[1:5]}"))
+
     # ---- tie: the two Cores differ only by function order and per-function renaming of bound names
     res = run_model(ctx, equiv_lines) if equiv_lines else {}
     n_eq = n_eq_ok = n_in_fragment = n_verified_with_closures = 0
@@ -254,6 +297,9 @@ def run(ctx):
         "behaviour_comparisons(distinct separate Go per project)": {"checked": n_beh, "same_as_whole(Go.Sem, Sem, Go.Check)": n_beh_ok},
         "go_text": {"separate_equal_to_whole": n_text_equal, "differs(only order/temporaries, see tie)": n_text_differs},
         "check_vs_build_interface": {"packages_checked": n_iface, "same_bytes": n_iface_same},
+        "tie_link_environment": {"pairs(project x link order, <= 2 per project)": n_env, "model_agrees_with_both_ways_on_every_lookup": n_env_ok,
+                                 "of_which_same_iteration_order_as_the_separate_link": n_env_same_order,
+                                 "exported_keys_per_project": dict(env_keys)},
         "exports_roundtrip_through_interface_json": {"packages": n_rt, "identity": n_rt_same, "with_at_least_one_export": n_rt_nonempty,
                                                      "exported_entries_per_package(capped at 10)": {str(k): v for k, v in sorted(rt_entries.items())}},
         "tie_core_equivalence": {"pairs": n_eq, "equal_up_to_order_and_renaming": n_eq_ok, "inside_verified_fragment(separate_eq_whole_validated applies)": n_in_fragment,
@@ -261,7 +307,7 @@ def run(ctx):
                                  "outside(only the unverified structural comparison accepts), by reason": dict(outside),
                                  "outside_samples": outside_samples,
                                  "failures": dict(why)},
-        "model_diffs": n_eq - n_eq_ok,
+        "model_diffs": (n_eq - n_eq_ok) + (n_env - n_env_ok),
         "impl_oracle_failures": len(ctx.violations) + sum(h["count"] for h in ctx.known_hits),
         "samples": samples,
     }
